@@ -607,6 +607,9 @@ pub fn enumerate(out: &str) -> u64 {
         id += 1;
         // connection 0 records an honest answer of key 2 for the replays
         writeln!(w, "hs conn=0 local=1 tt=allowed exp=2 remote=honest key=2").unwrap();
+        // the replaying remote reuses the identifier of the recorded connection (it opens the connection, so it chooses it)
+        writeln!(w, "hs conn=0 local=1 {} remote=replay key=2 from=0", tt).unwrap();
+        writeln!(w, "hs conn=0 local=1 tt=allowed exp=2 remote=honest key=2").unwrap();
         let mut conn = 1;
         for local in [1, 4] {
             for r in REMOTES {
@@ -666,6 +669,9 @@ pub fn gen(seed: u64, n: usize, out: &str) {
                             format!("tt=invite inv={} signer={} app={} signapp={}", 1 + g.below(9), 1 + g.below(4), a, if g.chance(4, 5) { a } else { 3 - a })
                         }
                     };
+                    // the side that OPENS a connection chooses its identifier: a replaying remote may reuse the identifier of
+                    // the connection on which it recorded the answer
+                    let mut use_conn = conn;
                     let remote = match g.below(9) {
                         0 | 1 | 2 => {
                             honest.push((conn, k));
@@ -678,12 +684,15 @@ pub fn gen(seed: u64, n: usize, out: &str) {
                         4 => format!("remote=wrongkey key={} signer2={}", k, 1 + (k % 4)),
                         5 if !honest.is_empty() => {
                             let (c, hk) = *g.pick(&honest);
+                            if g.chance(1, 2) {
+                                use_conn = c;
+                            }
                             format!("remote=replay key={} from={}", if g.chance(3, 4) { hk } else { k }, c)
                         }
                         6 => format!("remote=badrow key={} how={}", k, g.pick(&["room", "entity", "rowsig", "nopub"])),
                         _ => format!("remote=noanswer how={}", g.pick(&["error", "closed", "garbage"])),
                     };
-                    writeln!(w, "hs conn={} local={} {} {}", conn, if g.chance(3, 4) { 1 } else { 1 + g.below(4) }, tt, remote).unwrap();
+                    writeln!(w, "hs conn={} local={} {} {}", use_conn, if g.chance(3, 4) { 1 } else { 1 + g.below(4) }, tt, remote).unwrap();
                     conn += 1;
                 }
                 1 => {
